@@ -5,4 +5,5 @@ var Registry = map[string]func(args []string){
 	"dispatch": Dispatch,
 	"admission": Admission,
 	"hub": Hub,
+	"geometry": Geometry,
 }
